@@ -70,7 +70,7 @@ def case_from_hist(hist, cid, hist_mode=False, seed=0):
         elif e["ev"]["kind"] == "crash":
             runs[-1]["crash"] = {"stage": e["ev"]["stage"], "when": e["ev"]["when"]}
     ext = ".dat" if hist_mode else u.EXT[runs[0]["prog"]]
-    names = {"out": "out" + ext, "out2": "out2" + ext}
+    names = {"out": "out" + ext, "out2": "out2" + ext, "tgt": "run_001" + ext}
     nbk = sum(1 for k in first["fs"] if k.startswith("b"))
     init = {k: v for k, v in first["fs"].items() if k not in ("other",) and v != "absent"}
     return {"id": cid, "names": names, "nbk": nbk, "init": init, "runs": runs, "seed": seed, "instrument": True}
@@ -132,7 +132,12 @@ def replay_export(ck, hists, label, wd, seed, hist_mode=False):
             out.append((cs, h, None, "timeout"))
             continue
         if st != "ok":
-            raise c.MachineryError("C20 case runner failed on %s: %s" % (cs["id"], r))
+            # the observer could not cope with what the code under test did: that is reported against the code, with the
+            # case, never as a machinery failure (on the unchanged tree this does not happen)
+            ck.violation({"kind": "S->I", "case": cs, "expected": h, "observed": [], "info": {"runner": str(r)[-3000:]}},
+                         what="%s: the run could not be observed (%s): %s" % (cs["runs"][0]["prog"], st, str(r)[-600:]))
+            out.append((cs, h, None, "unobservable"))
+            continue
         out.append((cs, h, r, None))
     return out
 
@@ -152,6 +157,9 @@ def judge_main(ck, results):
         elif r["info"]["unreached"]:
             x = r["info"]["unreached"][0]["crash"]
             why = "stage boundary %s/%s of the specification's stage list was never reached" % (x["stage"], x["when"])
+        if r["info"].get("missing_targets") or r["info"].get("observer_error"):
+            why = (why + "; " if why else "") + "the program no longer has the stage functions %s %s" % (
+                r["info"].get("missing_targets"), r["info"].get("observer_error") or "")
         d = compare(h, r["events"])
         if d:
             why = (why + "; " if why else "") + d[1]
@@ -203,7 +211,9 @@ def random_cases(n, sd, nslow=0):
                 init["b%d" % b] = "bk%d" % b
         ext = u.EXT[prog]
         stem = rng.choice(["out", "my.result.v2", "sub/dir/coords", "a b", "#odd#", "x" * 40])
-        names = {"out": stem + ext, "out2": "unused_second" + ext}
+        names = {"out": stem + ext, "out2": "unused_second" + ext, "tgt": str(Path(stem).with_name("earlier run 7" + ext))}
+        if "out" in init and rng.random() < 0.3:
+            init["out"], init["tgt"] = "link", "lold"      # the output path is a symbolic link to a regular file
         no_parent = False
         if key in GOOD and crash is None and rng.random() < 0.25:
             # user error: the output directory does not exist -> the program fails by itself at the very end (flush / open)
@@ -255,7 +265,9 @@ def trace_direction(ck, wd, n, sd, refs_cache, nslow=0):
             stats["timeouts"] += 1
             continue
         if st != "ok":
-            raise c.MachineryError("C20 trace runner failed on %s: %s" % (cs["id"], r))
+            ck.violation({"kind": "I->S", "case": cs, "observed": [], "info": {"runner": str(r)[-3000:]}},
+                         what="%s (%s): the run could not be observed (%s): %s" % (cs["runs"][0]["prog"], cs["runs"][0]["input"], st, str(r)[-600:]))
+            continue
         rn = cs["runs"][0]
         ck.evaluations += len(r["events"])
         if r["info"]["unplanned"]:
@@ -369,7 +381,10 @@ DEVS = [("Out_dev_plainopen.cfg", "NoEarlyEffect", "output opened with open() in
         ("Out_dev_flushearly.cfg", "NoEarlyEffect", "writer flushed before serialisation is complete"),
         ("Out_dev_bkoverwrite.cfg", "OthersKept", "backup always written to #name.1#: an existing backup is overwritten"),
         ("Out_dev_nobackup.cfg", "NoLoss", "temp file moved over the existing file: previous content lost"),
-        ("Out_dev_seqopen.cfg", "NoEarlyEffect", "gen_seq opens (truncates) the output before the graph exists (mutant m40)")]
+        ("Out_dev_seqopen.cfg", "NoEarlyEffect", "gen_seq opens (truncates) the output before the graph exists (mutant m40)"),
+        ("Out_dev_linkdirect.cfg", "NoEarlyEffect", "an output path that is a symbolic link is written through: the link target is truncated before success (seed-C20-1)"),
+        ("Out_dev_linkdirect_succ.cfg", "BackupResolves", "symbolic link written through: previous content not under a backup name after success (seed-C20-1)"),
+        ("Out_dev_bkcount.cfg", "OthersKept", "backup index = count of existing backups + 1: a non-contiguous backup set gets an existing backup overwritten (seed-C20-2)")]
 # the same flags against further properties (thorough tier)
 DEVS_MORE = [("Out_dev_plainopen_succ.cfg", "SuccessState", "output opened with open(): no backup of the previous file"),
              ("Out_dev_plainopen_commit.cfg", "CommitOnly", "output opened with open(): the directory changes outside the commit stage"),
@@ -380,7 +395,8 @@ def run(tier):
     ck = c.Check(PROP, tier)
     sd = c.seed()
     ck.rule = ("S->I: TLC enumerates every behaviour of Output for 6 program variants (gen_params, gen_coords, gen_seq, each without and with "
-               "its optional stages) x 8 initial directories (target absent/present x backups #.1#, #.2# absent/present) x every crash point "
+               "its optional stages) x 20 initial directories (target absent/present x every subset of backups #.1# #.2# #.3#, incl. non-contiguous ones; "
+               "output path = symbolic link to a regular file with backups {}, {1}, {2}, {1,3}) x every crash point "
                "(before and after every stage, in the middle of serialisation, of the flush and of gen_seq's write) or success; each is run on the "
                "real program in a fresh process and compared after every stage; distinct = (variant, initial directory, crash point). "
                "I->S: seeded real runs on 24 other inputs (9 of them failing by themselves), 6 backup names with gaps, other file names and "
@@ -422,14 +438,15 @@ def run(tier):
 
     # ---- S -> I
     hists = export.cases()
-    if len(hists) < 1000:
+    if len(hists) < 3000:
         raise c.MachineryError("Output_Export produced only %d behaviours" % len(hists))
     inside = [h for h in hists if h[-1]["ev"]["when"] == "inside"]
     hists = [h for h in hists if h[-1]["ev"]["when"] != "inside"]
     ck.extra["behaviours_exported"] = len(hists) + len(inside)
     ck.extra["behaviours_inside_work_stage_not_injectable"] = len(inside)
     if tier == "quick":
-        # stratified: every (variant, crash point) with 3 of the 8 initial directories (rotating, seeded), every variant's success on all 8
+        # stratified (seeded): every (variant, crash point); all 20 initial directories for success and the flush points,
+        # 3 plain + 2 symlink directories for the serialisation points, 2 plain + 1 symlink for the work stages
         rng = random.Random(sd)
         groups = {}
         for h in hists:
@@ -437,13 +454,22 @@ def run(tier):
         sel = []
         for k in sorted(groups):
             g = sorted(groups[k], key=lambda h: json.dumps(h[0]["fs"], sort_keys=True))
-            if g[0][-1]["ev"]["kind"] == "finish" or g[0][-1]["ev"]["stage"] in ("flush", "popen", "pwrite", "write", "open"):
-                sel += g
+            last = g[0][-1]["ev"]
+            links = [h for h in g if h[0]["fs"]["out"] == "link"]
+            if last["kind"] == "finish" or last["stage"] == "flush" or (last["stage"], last["when"]) in (("write", "after"), ("pwrite", "mid")):
+                sel += g                                   # where the backup rule acts: all 20 initial directories
+            elif last["stage"] in ("popen", "pwrite", "write", "open"):
+                sel += rng.sample([h for h in g if h not in links], 3) + rng.sample(links, 2)
             else:
-                sel += rng.sample(g, 3)
+                sel += rng.sample([h for h in g if h not in links], 2) + rng.sample(links, 1)
         hists = sel
     ck.stage("S->I: %d behaviours on the real programs" % len(hists))
     mid = [h for h in hists if h[-1]["ev"] == {"kind": "crash", "stage": "flush", "when": "mid"} and h[0]["fs"]["out"] == "old" and h[0]["fs"]["b1"] != "absent"]
+    lk = [h for h in hists if h[-1]["ev"]["kind"] == "finish" and h[0]["fs"]["out"] == "link" and h[0]["fs"]["b1"] != "absent" and h[0]["var"]["prog"] == "gen_coords"]
+    if lk:
+        ck.sample({"S->I behaviour (output path is a symbolic link, #.1# and #.3# exist)" if lk[0][0]["fs"]["b3"] != "absent" else "S->I behaviour (output path is a symbolic link)":
+                   {k: v for k, v in lk[0][0]["fs"].items() if v != "absent"},
+                   "expected final directory": {k: v for k, v in lk[0][-1]["fs"].items() if v != "absent"}})
     if mid:
         ck.sample({"S->I behaviour": "%s, initial %s" % (mid[0][0]["var"], {k: v for k, v in mid[0][0]["fs"].items() if v != "absent"}),
                    "events": [_label(e["ev"]) for e in mid[0]],
